@@ -141,7 +141,8 @@ def judge(case, trace, mo, acc_l, acc_s, consts_expected=None):
         return v
     # ---- F: exact correspondence with the model
     ic = G.impl_canonical(t)
-    if G.canon_model(mo) != G.canon_model(ic):
+    v.internal_diff = G.canon_model(mo) != G.canon_model(ic)
+    if G.strip_internal(G.canon_model(mo)) != G.strip_internal(G.canon_model(ic)):
         v.kind = "tie"
         v.what = "implementation differs from the proved model"
         v.detail = "model: %s\nimpl : %s" % (mo, ic)
@@ -230,7 +231,32 @@ def main(run):
         hdr, ops = G.gen_case(r, profile=prof)
         lines.append(G.line_of(hdr, ops))
         kinds.append("generated")
+    if run.tier == "thorough":
+        # exhaustive sweep of short histories over a small alphabet (every interleaving of
+        # register / re-register / cancel / change / I/O / ACK / RST fresh+stale / give-up /
+        # error mode / session loss / deletion after one registration)
+        import itertools
+        alpha = ["reg:0:0:-:a1:0", "reg:0:0:-:a2:1", "reg:1:0:61:b1:0", "can:0:0:-:a1:0", "chg:0:1",
+                 "io", "ack:0:0", "rst:0:0", "rst:0:1", "fail", "err:0:132", "err:0:0", "lost:0", "del:0"]
+        for mode, nstart, depth in ((0, 1, 4), (1, 1, 4), (1, 2, 3)):
+            for seq in itertools.product(alpha, repeat=depth):
+                lines.append("c11 1 %d 0 0 %d reg:0:0:-:a1:0 chg:0:1 %s chg:0:1 io" %
+                             (mode, nstart, " ".join(seq)))
+                kinds.append("sweep")
     verdicts, ncrash = evaluate(lines, drv, model)
+    if run.tier == "thorough":
+        # the same corpus + a sample of the generated histories under ASan/UBSan: the deletion
+        # paths (observer freed while its list is walked, session released) must be memory safe
+        drv_asan = vlib.build_driver("h_observe", ["h_observe.c"], variant="asan", wraps=G.WRAPS)
+        sample = [ln for ln, k in zip(lines, kinds) if k != "sweep"][:6000]
+        outs_a, crashes_a = vlib.run_lines_robust(drv_asan, sample, timeout=1800,
+                                                  env={"ASAN_OPTIONS": "detect_leaks=1:abort_on_error=0"})
+        run.cov["asan_cases"] = len(sample)
+        run.cov["asan_crashes"] = len(crashes_a)
+        for idx, rc, err in crashes_a[:2]:
+            run.violation("the driver built with ASan/UBSan stops on this history (rc=%d)" % rc,
+                          "case: %s\n\n%s\nreplay: echo '<case>' | .build/obj/asan/h_observe\n"
+                          % (sample[idx], err), tag="asan%d" % idx)
     run.cov["driver_crashes"] = ncrash
     nbad = {}
     consts = None
@@ -247,6 +273,9 @@ def main(run):
             for g in t.groups:
                 run.hist("model_op", g[0][0])
         run.hist("verdict", v.kind or "ok")
+        if getattr(v, "internal_diff", False) and v.kind is None:
+            # flags the property cannot observe differ from the model: recorded, not a violation
+            run.hist("internal_state_differs", 1)
         if i % 200 == 5 and v.kind is None:
             run.sample({"case": ln[:400], "impl_trace": v.trace[:600]})
         if v.kind is None:
